@@ -125,10 +125,11 @@ def build_script(z3, shape, cut, concrete=None):
     concrete: optional list of (b0, key4, payload) ints to build a concrete script."""
     inp = []
     meta = []
-    for i, (ln, mask, enc) in enumerate(shape):
+    for i, sh in enumerate(shape):
+        ln, mask, enc = sh[:3]
         start = len(inp)
         if concrete is None:
-            b0 = z3.BitVec("f%d_b0" % i, 8)
+            b0 = sh[3] if len(sh) > 3 else z3.BitVec("f%d_b0" % i, 8)
             key = [z3.BitVec("f%d_k%d" % (i, j), 8) for j in range(4)] if mask else []
             pay = [z3.BitVec("f%d_p%d" % (i, j), 8) for j in range(ln)]
         else:
@@ -205,7 +206,13 @@ def _job(job):
         t_sym = time.time() - t0
         present = [m for m in meta if m["start"] < total]             # first header byte delivered
         complete = [m for m in meta if m["end"] <= total]
-        rsv0 = [z3.Extract(6, 4, m["b0"]) == 0 for m in present]
+        rsv0 = [z3.Extract(6, 4, m["b0"]) == 0 for m in present if not isinstance(m["b0"], int)]
+        def b0val(model, fm):
+            return fm["b0"] if isinstance(fm["b0"], int) else model.eval(fm["b0"], model_completion=True).as_long()
+        def pin(fm, lo_hi, v):
+            if isinstance(fm["b0"], int):
+                return z3.BoolVal(((fm["b0"] >> lo_hi[1]) & ((1 << (lo_hi[0] - lo_hi[1] + 1)) - 1)) == v)
+            return z3.Extract(lo_hi[0], lo_hi[1], fm["b0"]) == v
         solver_s = 0.0
         def check(s, what):
             nonlocal solver_s
@@ -239,7 +246,7 @@ def _job(job):
                 m = s.model()
                 ctrl = []
                 for fm in complete:
-                    b = m.eval(fm["b0"], model_completion=True).as_long()
+                    b = b0val(m, fm)
                     ctrl.append((b & 15, (b >> 7) & 1))
                 frames = [(fm["start"], fm["end"], fm["unmasked"]) for fm in complete]
                 # a truncated frame whose first byte is present: its opcode decides InvalidOpcode vs ReadError
@@ -249,11 +256,11 @@ def _job(job):
                 used = _used(frames, ctrl, ref)
                 A = []
                 for fm, (op, fin) in list(zip(complete, ctrl))[:used]:
-                    A.append(z3.Extract(3, 0, fm["b0"]) == op)
-                    A.append(z3.Extract(7, 7, fm["b0"]) == fin)
+                    A.append(pin(fm, (3, 0), op))
+                    A.append(pin(fm, (7, 7), fin))
                 if ref[0] == "eof" and trunc:
-                    tb = m.eval(trunc[0]["b0"], model_completion=True).as_long() & 15
-                    A.append(z3.Extract(3, 0, trunc[0]["b0"]) == tb)
+                    tb = b0val(m, trunc[0]) & 15
+                    A.append(pin(trunc[0], (3, 0), tb))
                     if tb not in OPN:
                         ref = ("outside",) + ref[1:]
                 res["ctrl_sequences"] += 1
@@ -414,6 +421,16 @@ def shapes(tier):
         [F(1), F(2), F(3)], [F(0, 0), F(4), F(1, 1, 16)], [F(2), F(0), F(5, 1, 64)],
     ]
     jobs = []
+    # one payload longer than the decoder's 64 KiB allocation step (the chunk loop runs, 64-bit length form); put first: it is the longest job
+    # (quick: first header byte fixed to FIN|Text so that the 65537 unmask steps are executed on one path only)
+    jobs.append(("recv", [(65537, 1, 64, 0x81)], 0, None, True))
+    if tier == "thorough":
+        jobs.append(("recv", [F(65537, 1, 64)], 0, None, True))
+        jobs.append(("recv", [F(70 * 1024, 1, 64)], 0, None, True))
+        jobs.append(("recv", [F(65536, 0, 64), F(1)], 0, None, True))
+        jobs.append(("recv", [F(65535, 1, 16)], 0, None, True))
+        jobs.append(("recv", [F(65537, 1, 64)], 1, None, True))
+        jobs.append(("recv_nb", [F(65537, 1, 64)], 0, 1, False))
     for sh in base:
         jobs.append(("recv", sh, 0, None, True))
     # truncated scripts (abrupt disconnect): inside header, ext length, key, payload
@@ -421,7 +438,7 @@ def shapes(tier):
         jobs.append(("recv", sh, cut, None, True))
     # non-blocking: bytes delivered when the call starts
     for sh in [[F(2)], [F(1), F(3)], [F(0), F(1), F(2)], [F(126, 1, 16)]]:
-        total = sum(1 + len(enc_len(m, ln, e)) + 4 * m + ln for ln, m, e in sh)
+        total = sum(1 + len(enc_len(x[1], x[0], x[2])) + 4 * x[1] + x[0] for x in sh)
         first_end = 1 + len(enc_len(sh[0][1], sh[0][0], sh[0][2])) + 4 * sh[0][1] + sh[0][0]
         for arrived in sorted({0, 1, 2, 3, first_end, first_end + 1, total}):
             if arrived <= total:
@@ -520,6 +537,8 @@ def run_part(tier, work, mir):
     # ---- translator validation
     rnd = random.Random(seed() * 7919 + 11)
     items = concrete_scripts(rnd, 40 if tier == "quick" else 160)
+    big = 65536 + rnd.randrange(1, 900)
+    items.insert(0, ("recv", [(big, 1, 64)], 0, None, True, [(0x80 | rnd.choice([1, 2, 9]), [rnd.randrange(256) for _ in range(4)], [rnd.randrange(256) for _ in range(big)])]))
     eng = mengine.pmap(_validate_one, items)
     lines = []
     for (which, shape, cut, arrived, eof, conc) in items:
@@ -606,7 +625,14 @@ def valid_content(rnd, shape):
     """Random content for a shape whose control sequence is an RFC-valid script."""
     conc = []
     in_msg = False
-    for (ln, mask, enc) in shape:
+    for sh_ in shape:
+        ln, mask, enc = sh_[:3]
+        if len(sh_) > 3:
+            op, fin = sh_[3] & 15, sh_[3] >> 7
+            if op < 8:
+                in_msg = not fin
+            conc.append((sh_[3], [rnd.randrange(256) for _ in range(4)], [rnd.randrange(256) for _ in range(ln)]))
+            continue
         if in_msg:
             op, fin = rnd.choice([(0, 1), (0, 0), (0, 1), (9, 1), (10, 1), (8, 1)])
         else:
@@ -645,7 +671,8 @@ def _expected_concrete(which, shape, cut, arrived, eof, data):
     pos = 0
     frames, ctrl = [], []
     total = len(data)
-    for (ln, mask, enc) in shape:
+    for sh_ in shape:
+        ln, mask, enc = sh_[:3]
         start = pos
         hdr = 1 + len(enc_len(mask, ln, enc))
         end = start + hdr + 4 * mask + ln
